@@ -265,6 +265,29 @@ pub fn c18(ctx: &mut Ctx) {
             }
         }
         non_utf8_space(ctx, kind);
+        // Unicode white space that is NOT JSON white space (JSON allows only space, tab, LF, CR), and the
+        // BOM, at the very start / end of an otherwise valid text: still invalid JSON, however it is delivered
+        {
+            let ws = ['\u{b}', '\u{c}', '\u{85}', '\u{a0}', '\u{1680}', '\u{2000}', '\u{2003}', '\u{200a}', '\u{2028}', '\u{2029}', '\u{202f}', '\u{205f}', '\u{3000}', '\u{feff}', '\u{200b}', '\u{1c}'];
+            for c in ws {
+                if !ctx.mine() {
+                    continue;
+                }
+                for body in ["1", r#"{"a":[1,2]}"#, r#""s""#] {
+                    for text in [format!("{}{}", c, body), format!("{}{}", body, c), format!(" {}{} ", body, c)] {
+                        for r in [r#"{"var":""}"#, r#"{"var":"a"}"#] {
+                            ctx.edge();
+                            judge_cli(ctx, "unicode-space:data-argument", kind, vec![r.to_string(), text.clone()], None, Some((r, &text)), true);
+                            judge_cli(ctx, "unicode-space:data-stdin", kind, vec![r.to_string()], Some(&text), Some((r, &text)), true);
+                            judge_cli(ctx, "unicode-space:data-stdin-dash", kind, vec![r.to_string(), "-".into()], Some(&text), Some((r, &text)), true);
+                        }
+                        // the same text as the rule
+                        judge_cli(ctx, "unicode-space:rule", kind, vec![text.clone(), "null".into()], None, Some((&text, "null")), true);
+                        judge_cli(ctx, "unicode-space:rule:data-stdin", kind, vec![text.clone()], Some("null"), Some((&text, "null")), true);
+                    }
+                }
+            }
+        }
         // large documents on stdin and as argument
         if ctx.mine() {
             let big: String = format!("[{}]", (0..20000).map(|i| i.to_string()).collect::<Vec<_>>().join(","));
